@@ -1497,6 +1497,27 @@ class ONP:
             return onp.sort(a, axis=axis, **k)
         return _sort(a)
 
+    def intersect1d(self, a, b, assume_unique=False, return_indices=False):
+        """sorted unique common elements. Modelled for one concrete and one (possibly padded, symbolic) integer array"""
+        if not isinstance(a, PA) and not isinstance(b, PA):
+            return onp.intersect1d(a, b, assume_unique=assume_unique, return_indices=return_indices)
+        if return_indices:
+            raise Unsupported('intersect1d(return_indices=True)')
+        conc = lambda x: (not isinstance(x, PA)) or (x.dense and all(num(v) for v in x.data.reshape(-1)))
+        if conc(a) and conc(b):
+            f = lambda x: x.to_numpy() if isinstance(x, PA) else onp.asarray(x)
+            return self._lit(onp.intersect1d(f(a), f(b)), None)
+        if conc(b):
+            a, b = b, a
+        if not conc(a):
+            raise Unsupported('intersect1d of two symbolic arrays')
+        cand = sorted({int(v) for v in (a.to_numpy() if isinstance(a, PA) else onp.asarray(a)).reshape(-1)})
+        b = _as_pa1(b.ravel() if isinstance(b, PA) else b)
+        Lb = b.length()
+        member = [b_or(*[b_and(i_lt(p, Lb), i_eq(b.data[p], d)) for p in range(b.data.shape[0])]) for d in cand]
+        vals = PA(_as_obj(onp.asarray(cand, dtype=int)), 'i', None, max(cand + [0]))
+        return _compress(vals, dense_pa(member, 'b'))
+
     def argsort(self, a, axis=-1, kind=None, **k):
         if not isinstance(a, PA):
             return onp.argsort(a, axis=axis, kind=kind, **k)
@@ -1701,7 +1722,7 @@ def sz(x):
 
 # ------------------------------------------------------------------------------------------ bounded meshes and BC lists
 class Cfg:
-    def __init__(self, name, coords, conns, dim, extra=True, blocks=None):
+    def __init__(self, name, coords, conns, dim, extra=True, blocks=None, negative=False):
         self.name, self.coords, self.conns, self.dim = name, coords, conns, dim
         self.blocks = blocks           # ordered ((name, element ids), ...) -> mesh.blocks dict in this order; None: no blocks
         self.nN, self.nEl = len(coords), len(conns)
@@ -1712,6 +1733,10 @@ class Cfg:
         self.bcs = [('A%d' % c, c) for c in range(dim)]
         if extra:
             self.bcs += [('X', 0), ('A0', dim - 1), ('A0', 0)]
+        if negative:
+            # EssentialBC records with NEGATIVE components (numpy indexing: -1 is the last field, -dim the first): the whole
+            # accepted range -dim..dim-1 occurs
+            self.bcs = [(s_, c - dim) for s_, c in self.bcs[:dim]] + self.bcs[dim:] + [('X', -1)]
         self.sets = sorted({s for s, _ in self.bcs})
 
     def describe(self):
@@ -1737,7 +1762,8 @@ def block_cfgs():
 
 def cfgs(tier_thorough):
     out = [Cfg('tri1_f1', *TRI1, 1), Cfg('tri1_f2', *TRI1, 2), Cfg('tri2_f1', *TRI2, 1), Cfg('tri2_f2', *TRI2, 2), Cfg('tri2b_f2', *TRI2B, 2),
-           Cfg('tri1gap_f2', *TRI1GAP, 2, extra=False)]
+           Cfg('tri1gap_f2', *TRI1GAP, 2, extra=False), Cfg('tri2_f2_negative_components', *TRI2, 2, extra=False, negative=True),
+           Cfg('tri1_f1_negative_component', *TRI1, 1, extra=False, negative=True)]
     if tier_thorough:
         out += [Cfg('tri1_f3', *TRI1, 3), Cfg('tri2_f3', *TRI2, 3)]
     return out
@@ -1783,7 +1809,7 @@ class Oracle:
         self.bc = []
         for n in range(cfg.nN):
             for c in range(cfg.dim):
-                self.bc.append(b_or(*[self._has(member[s], n) for s, cc in cfg.bcs if cc == c]))
+                self.bc.append(b_or(*[self._has(member[s], n) for s, cc in cfg.bcs if cc % cfg.dim == c]))
         self.free = [b_not(x) for x in self.bc]
         self.rank_free, self.nfree = prefix_counts(self.free)
         self.rank_bc, self.nbc = prefix_counts(self.bc)
@@ -1951,6 +1977,24 @@ def goals_slice(G, cfg, orc, dm, ex):
                     for u in range(d + 1):
                         conds.append(b_implies(b_and(fk[n], i_eq(rk[n], p), i_eq(orc.rank_free[d], u)), v_eq(r.at(p), Wuv[u])))
             G(gname, conds)
+    # node index ARRAYS instead of "all nodes": descending, and with a repeated node — the result follows the given array
+    for label, arr in (('descending', list(range(cfg.nN - 1, -1, -1))), ('repeated', [0, cfg.nN - 1, cfg.nN - 1, 0] + list(range(cfg.nN)))):
+        for k in range(cfg.dim):
+            if symbolic:
+                key = (onp.asarray(arr, dtype=int), k)
+            else:
+                import jax.numpy as jnp
+                key = (onp.asarray(arr, dtype=int), k)
+            r = View(dm.slice_unknowns_with_dof_indices(Wu, key))
+            fk = [orc.free[n * cfg.dim + k] for n in arr]
+            rk, nk = prefix_counts(fk)
+            conds = [i_eq(r.n, nk)]
+            for q, n in enumerate(arr):
+                d = n * cfg.dim + k
+                for p in range(q + 1):
+                    for u in range(d + 1):
+                        conds.append(b_implies(b_and(fk[q], i_eq(rk[q], p), i_eq(orc.rank_free[d], u)), v_eq(r.at(p), Wuv[u])))
+            G('component_slice_by_node_array_follows_the_order_and_repeats_of_the_array', conds)
     d2u, isUn, isBc, uI = View(dm.dofToUnknown), View(dm.isUnknown), View(dm.isBc), View(dm.unknownIndices)
     G('slicing_leaves_the_dof_manager_unchanged',
       [i_eq(d2u.at(d), ite(orc.free[d], orc.rank_free[d], -1, 'i')) for d in range(nd)] + [i_eq(d2u.n, nd)] +
@@ -2202,7 +2246,8 @@ GOALS_ROUNDTRIP = ['unknown_values_are_the_unconstrained_entries_in_dof_order', 
                    'split_then_recombine_returns_the_field', 'recombine_then_split_returns_the_unknown_values', 'recombine_then_split_returns_the_bc_values',
                    'created_field_holds_unknown_p_at_the_pth_unconstrained_dof', 'created_field_default_bc_value_is_zero']
 GOALS_SLICE = ['component_slice_is_the_unconstrained_entries_of_the_component_in_node_order',
-               'repeated_component_slice_is_the_unconstrained_entries_of_the_component_in_node_order', 'slicing_leaves_the_dof_manager_unchanged']
+               'repeated_component_slice_is_the_unconstrained_entries_of_the_component_in_node_order', 'slicing_leaves_the_dof_manager_unchanged',
+               'component_slice_by_node_array_follows_the_order_and_repeats_of_the_array']
 GOALS_COO = ['hessian_bc_mask_marks_the_unknown_by_unknown_entries', 'coo_lengths_equal_the_number_of_masked_entries', 'coo_coordinates_are_unknown_ids',
              'coo_pairs_of_an_element_are_pairs_of_its_unknowns', 'coo_pairs_cover_every_unknown_by_unknown_entry_of_each_element',
              'coo_pairs_address_no_entry_of_an_element_twice', 'coo_pair_t_belongs_to_masked_entry_t_up_to_one_global_transposition']
